@@ -1,6 +1,7 @@
 import L21.Proofs.Gds
 import L21.Props.C15
 import L21.Proofs.GdsTree
+import L21.Proofs.GdsBytes
 /-
 C01 — GDSII write-then-read returns the library that was written.
 
@@ -123,8 +124,26 @@ def demoLib : Library :=
        .text [104, 105] 5 6 [3, 4] (some (0, 5)) none (some 4) (some ⟨false, true, false, none, some 0x4056800000000000⟩) ⟨none, none, [⟨9, [1]⟩]⟩,
        .node 1 1 [0, 0] ⟨none, none, []⟩,
        .box 1 1 [0, 0, 1, 0, 1, 1, 0, 1, 0, 0] ⟨none, none, []⟩]⟩,
-     ⟨[98], [], []⟩]⟩
+     ⟨[98], [0, 0, 0, 0, 0, 0, 0, 0, 0, 0, 0, 0], []⟩]⟩
 example : libOk demoLib = true := by decide
 example : parseLib (libRecs demoLib) = .ok demoLib := by decide +kernel
+
+/-- THE PROPERTY, BYTE LEVEL, PROVED: for every library, if writing succeeds then reading the bytes
+    returns the library that was written — every struct, element, optional record, property, string
+    and number — with reals compared as doubles (−0.0 is read as +0.0; both are the all-zero real).
+    Hypotheses: coordinate lists have the shape their element kind demands (`libOk`), and every
+    field value is in the range of its Rust type: i16 / i32 integers, flag bytes, valid UTF-8 strings,
+    doubles inside the GDSII range 16^-65 ≤ |x| < 16^63 or zero (`recOkB`, a decidable check).
+    Whether writing succeeds at all is `c01_total`, `c01_string_written_iff`, `c01_record_too_long`
+    and C15's range theorems. -/
+theorem c01_roundtrip (l : Library) (bs : Bytes) (h : enc l = .ok bs) (hshape : libOk l = true)
+    (hrange : (libRecs l).all recOkB = true) : dec bs = .ok (canonLib l) :=
+  dec_enc l bs h hshape (fun r hr => recOk_of_B r (List.all_eq_true.1 hrange r hr))
+
+example : (libRecs demoLib).all recOkB = true := by decide +kernel
+example : ∃ bs, enc demoLib = .ok bs ∧ dec bs = .ok (canonLib demoLib) := by
+  cases h : enc demoLib with
+  | ok bs => exact ⟨bs, rfl, c01_roundtrip demoLib bs h (by decide) (by decide +kernel)⟩
+  | err => exact absurd h (by decide +kernel)
 
 end L21.Gds
